@@ -9,12 +9,28 @@ instantiates it with runtime doubles; the theorems hold for every function (C19_
 for every function with the laws of `MulDivTruncLaws` (C19_interp_grid, C19_text_height).
 
 numpy means / medians are exact rationals `(numerator, denominator)` with denominator > 0.
+
+The numeric literals and defaults of the source that matter here (the step that reaches
+compute_baseline_distances / compute_bounding_box_distances from the functions that pass none, the
+fall-back step of get_text_heights, the thresholds of the is_*_overlapping calls, the divisor of
+in_same_column) are NOT written here: they are `Generated.C19.*`, regenerated from the working tree
+on every run (harness/props/c19.py `translate`).
 -/
 import PagexmlModel.Basic.Err
 import PagexmlModel.Model.C03
+import PagexmlModel.Generated.C19
 
 namespace Pagexml.C19
 open Pagexml.C03 (Pt Coords mkCoords)
+
+/-- step of the line-distance functions that pass none to compute_baseline_distances (regenerated) -/
+def lineStep : Int := Generated.C19.lineDistStep
+/-- step with which get_line_distances reaches compute_bounding_box_distances (regenerated) -/
+def bboxStep : Int := Generated.C19.bboxDistStep
+/-- `N` of `if line.baseline.width <= step: step = N` in get_text_heights (regenerated) -/
+def fallbackStep : Int := Generated.C19.textHeightsFallbackStep
+/-- `a / d > p/q` for `d > 0`, `q > 0` (`r = (p, q)`), by cross-multiplication -/
+def ratioGt (a d : Int) (r : Int × Int) : Bool := decide (a * r.2 > r.1 * d)
 
 abbrev MulDivTrunc := Int → Int → Int → Int
 
@@ -179,11 +195,11 @@ def textHeightsAt (mdt : MulDivTrunc) (coords baseline : List Pt) (step : Int) :
   if hs.isEmpty then return none else return some hs
 
 /-- `get_text_heights` (line with coords and baseline); `none` is Python's `None`;
-    `if line.baseline.width <= step: step = 5` -/
+    `if line.baseline.width <= step: step = N` (`N = fallbackStep`, 5 at the time of writing) -/
 def textHeights (mdt : MulDivTrunc) (coords baseline : List Pt) (step : Int) :
     Res (Option (List Int)) := do
   let b ← mkCoords baseline
-  textHeightsAt mdt coords baseline (if b.width ≤ step then 5 else step)
+  textHeightsAt mdt coords baseline (if b.width ≤ step then fallbackStep else step)
 
 /-! ### exact means and medians -/
 
@@ -272,11 +288,11 @@ def lineDist (mdt : MulDivTrunc) (l1 l2 : Line) (step : Int) : Res (List Int) :=
 def lineDistances (mdt : MulDivTrunc) (lines : List Line) : Res (List (List Int)) :=
   (pairs lines).mapM (fun cn =>
     match cn.1.baseline, cn.2.baseline with
-    | some b1, some b2 => baselineDistances mdt b1 b2 50
+    | some b1, some b2 => baselineDistances mdt b1 b2 lineStep
     | _, _ => do
       let p1 ← bottomPoints cn.1
       let p2 ← bottomPoints cn.2
-      pointsDistances mdt p1 p2 50)
+      pointsDistances mdt p1 p2 bboxStep)
 
 inductive Region where
   | mk (coords : List Pt) (scanId colId : Option Int) (lines : List Line) (subs : List Region)
@@ -311,7 +327,8 @@ def vOverlap (c1 c2 : Coords) : Int :=
   let b := min c1.bottom c2.bottom
   if b ≥ t then b - t + 1 else 0
 
-/-- `in_same_column` on two regions (`overlap > w / 2` ⇔ `2·overlap > w`) -/
+/-- `in_same_column` on two regions (`overlap > w / N` ⇔ `N·overlap > w` for the positive divisor `N`
+    of the source, 2 at the time of writing) -/
 def inSameColumn (r1 r2 : Region) : Res Bool := do
   match r1.scanId, r2.scanId with
   | some a, some b => if a ≠ b then return false
@@ -321,16 +338,16 @@ def inSameColumn (r1 r2 : Region) : Res Bool := do
   | _, _ =>
     let c1 ← mkCoords r1.coords
     let c2 ← mkCoords r2.coords
-    return decide (2 * hOverlap c1 c2 > c1.w)
+    return decide (Generated.C19.sameColumnDivisor * hOverlap c1 c2 > c1.w)
 
 /-- distances from each line of a region to the next one; the last line is paired with
     `nextFirst` (first line of the next region in the same column) when there is one -/
 def lineDistsIn (mdt : MulDivTrunc) : List Line → Option Line → Res (List (List Int))
   | [], _ => .ok []
   | [_], none => .ok []
-  | [l], some nl => do return [← lineDist mdt l nl 50]
+  | [l], some nl => do return [← lineDist mdt l nl lineStep]
   | l :: l' :: r, nf => do
-    let d ← lineDist mdt l l' 50
+    let d ← lineDist mdt l l' lineStep
     let ds ← lineDistsIn mdt (l' :: r) nf
     return d :: ds
 
@@ -392,19 +409,19 @@ def avgLineWidth (r : Region) (u : WidthUnit) : Res Q := do
       pure (acc.1 + (if u = .char then (m : Int) else w), acc.2 + 1)) ((0, 0) : Int × Int)
   if acc.2 > 0 then return (acc.1, acc.2) else return (0, 1)
 
-/-- `is_vertically_overlapping` with the default threshold 0.5 (`v / m > 0.5` ⇔ `2·v > m`) -/
+/-- `is_vertically_overlapping` with the threshold that compute_textregion_distance passes (its default) -/
 def isVertOverlapping (c1 c2 : Coords) : Bool :=
   if c1.height = 0 && c2.height = 0 then false
   else if c1.height = 0 then decide (c2.top ≤ c1.top ∧ c1.top ≤ c2.bottom)
   else if c2.height = 0 then decide (c1.top ≤ c2.top ∧ c2.top ≤ c1.bottom)
-  else decide (2 * vOverlap c1 c2 > min c1.height c2.height)
+  else ratioGt (vOverlap c1 c2) (min c1.height c2.height) Generated.C19.regionVOverlapThr
 
 /-- `is_horizontally_overlapping` on elements compared by their coordinates -/
 def isHorizOverlapping (c1 c2 : Coords) : Bool :=
   if c1.width = 0 && c2.width = 0 then false
   else if c1.width = 0 then decide (c2.left ≤ c1.left ∧ c1.left ≤ c2.right)
   else if c2.width = 0 then decide (c1.left ≤ c2.left ∧ c2.left ≤ c1.right)
-  else decide (2 * hOverlap c1 c2 > min c1.width c2.width)
+  else ratioGt (hOverlap c1 c2) (min c1.width c2.width) Generated.C19.regionHOverlapThr
 
 /-- `compute_textregion_distance` on (coords, direct lines) of the two regions -/
 def regionDistance (mdt : MulDivTrunc) (c1p : List Pt) (l1 : List Line) (c2p : List Pt) (l2 : List Line) :
@@ -416,7 +433,7 @@ def regionDistance (mdt : MulDivTrunc) (c1p : List Pt) (l1 : List Line) (c2p : L
   let (ca, la, cb, lb) := if swap then (c2, l2, c1, l1) else (c1, l1, c2, l2)
   match la.getLast?, lb.head? with
   | some prev, some curr => do
-    let ds ← lineDist mdt prev curr 50
+    let ds ← lineDist mdt prev curr lineStep
     medianQ (ofInts ds)
   | _, _ => return (cb.top - ca.bottom, 1)
 
@@ -491,7 +508,7 @@ def distEvent (mdt : MulDivTrunc) (prev : Option Line) (l : Line) : Res (List Ev
   match prev with
   | none => .ok []
   | some p => do
-    let ds ← lineDist mdt p l 50
+    let ds ← lineDist mdt p l lineStep
     let m ← medianQ (ofInts ds)
     return [(("line", "distance", m) : Event)]
 
